@@ -66,6 +66,22 @@ func vfBubble(t *testing.T, name string, f func()) (hung bool) {
 	done := make(chan struct{})
 	go func() {
 		defer close(done)
+		defer func() {
+			// synctest panics in this goroutine when the scenario function has returned while goroutines of
+			// the bubble are still blocked for good. The scenario's own end event has already reported them
+			// (leak list => C09_NoLeak); the process must survive to run the remaining scenarios.
+			if r := recover(); r != nil {
+				msg := fmt.Sprint(r)
+				if strings.Contains(msg, "blocked goroutines remain") || strings.Contains(msg, "deadlock") {
+					fmt.Fprintf(os.Stderr, "VF-BUBBLE-LEAK scenario=%s: %s\n", name, msg)
+					if vfCurTrace != nil {
+						vfCurTrace.emit(map[string]any{"ev": "bubbleleak", "name": name, "what": msg})
+					}
+					return
+				}
+				panic(r)
+			}
+		}()
 		synctest.Test(t, func(t *testing.T) { f() })
 	}()
 	select {
@@ -92,7 +108,7 @@ func vfBubble(t *testing.T, name string, f func()) (hung bool) {
 }
 
 var (
-	vfCurTrace  *vfTrace         // trace of the world most recently created (scenarios run one at a time)
+	vfCurTrace  *vfTrace            // trace of the world most recently created (scenarios run one at a time)
 	vfDeadGoros = map[string]bool{} // goroutines of earlier deadlocked bubbles
 )
 
